@@ -16,18 +16,25 @@ sys.path.insert(0, os.path.join(vf.VERIF, "lib"))
 import trie_gen as tg  # noqa: E402
 
 META = {
-    "text": "Theorems (Coq, parametric in the hash function, no axioms) over a model of merkleProof / merkleProofCompressed and the four "
-            "verifiers: completeness for present keys, absent keys with an empty subtree on the path and absent keys with a foreign leaf "
-            "on the path (plain and compressed) for every non-empty well-formed trie; soundness of inclusion proofs and of non-inclusion "
-            "proofs by a foreign leaf up to an explicit hash break (collision or DefaultLeaf shift pair), which includes "
-            "non-transplantability across keys, values, roots and heights.  Two statements are false of the code and stay visible: "
-            "a non-inclusion proof by an empty subtree is forgeable for present keys whenever a child hash next to an empty sibling "
-            "starts/ends with a zero byte (F24: theorem non_inclusion_forgery + reproduction on the real verifier with SHA-256), and the "
-            "proof of absence against the empty trie (nil root) is rejected (F25).  Every run compares real proofs with model proofs byte "
-            "for byte and real verifier verdicts with model verdicts on honest and corrupted proofs.",
-    "note": "Trusted: Coq kernel, extraction (ExtrOcamlBasic) + OCaml driver for volume, Go engine, generator.  Verifier inputs are assumed "
-            "length-checked (32-byte key/value, audit nodes 32 bytes or DefaultLeaf): the Go verifiers do not check and panic on short input.",
-    "technique": "Coq proof over Gallina proof/verifier model + extracted-model correspondence on real proofs and their corruptions",
+    "text": "17 theorems (Coq, no axioms, parametric in H) over a model of merkleProof(Compressed) and the four verifiers. "
+            "FULL: completeness for present keys and for absent keys (empty subtree or foreign leaf on the path) in every non-empty trie, plain "
+            "and compressed (compress/decompress, compressed verifiers = plain verifiers on the decompressed path); the F2 repair. FULL with "
+            "`\\/ hash_break H` (collision or DefaultLeaf shift pair): soundness of inclusion and of non-inclusion by a foreign leaf (plain and "
+            "compressed), non-transplantability across key/value/root/height; statedb composition (account proof + variable proof against the "
+            "storage root in the proved state bind the variable to the state root); chain level: the proof returned through name "
+            "resolution, labelled Key := resolved address, is accepted by a client deriving the trie key from that Key. PARTIAL: non-inclusion by an empty subtree is sound only if the audit nodes are hash outputs (not checkable). REFUTED: that "
+            "statement without the hypothesis (C11:noninclusion-default-shift-forgery, forged with SHA-256 on every run) and completeness "
+            "for the empty trie (C11:empty-trie-proof-rejected; via the ChainWorker: C11:chain-var-proof-empty-storage). Every run: real proofs "
+            "(current/historical roots) = model proofs byte for byte (toy hash); honest and single-field-corrupted proofs through real and "
+            "model verifiers (verdicts equal; accepted => claim true of the map); statedb and ChainWorker answers (by address, name, special "
+            "accounts, variables, plain/compressed, every root) verified like a light client by the real and the model verifiers.",
+    "note": "Trusted: Coq kernel (vm_compute sample), extraction (ExtrOcamlBasic) + OCaml driver incl. its SHA-256 (test vector each run), Go "
+            "toolchain, engines in pkg/trie, state/statedb and chain (overlay build with the VM stub, irrelevant here), generators. No axioms, no "
+            "translator. Modelled: the protobuf encoding of types.State and name resolution are function parameters (injectivity assumed for "
+            "the encoding, format in C19). Assumptions: verifier inputs are length-checked (32-byte key/value, audit nodes 32 bytes or "
+            "DefaultLeaf, enough nodes/bitmap bytes: the Go verifiers do not check and panic on short input, counted as not accepted); H "
+            "returns 32 bytes.",
+    "technique": "Coq proof over Gallina proof/verifier model + extracted-model correspondence on real proofs, their corruptions, statedb and ChainWorker answers",
 }
 
 ENGINE = os.path.join(vf.HARNESS, "engines/trie/zz_verif_trie_engine_test.go")
@@ -52,7 +59,7 @@ def sha(data):
 
 
 def forgery_case(hname):
-    """F24: two keys 10.. and 11.. (root = Nd E r); grind a value until hash(r) ends in 0x00."""
+    """F37b: two keys 10.. and 11.. (root = Nd E r); grind a value until hash(r) ends in 0x00."""
     hf = sha if hname == "sha" else toy_hash
     k1 = bytes([0x80] + [0] * 31)
     k2 = bytes([0xC0] + [0] * 31)
@@ -386,7 +393,7 @@ def run(ctx):
                                "Go toolchain, engine harness/engines/trie", "generator lib/trie_gen.py + checks/C11.py"]
     ctx.assumptions = ["verifier inputs are length-checked: key and value 32 bytes, audit nodes 32 bytes or DefaultLeaf, height <= 256",
                        "soundness theorems conclude `... \\/ hash_break H` (collision or DefaultLeaf shift pair)",
-                       "non-inclusion by an empty subtree is sound only for audit paths made of hash outputs (F24)"]
+                       "non-inclusion by an empty subtree is sound only for audit paths made of hash outputs (F37b)"]
     rc, log, binp = ctx.go_test_binary("pkg/trie", [ENGINE], "trie.test", use_overlay=False)
     if rc != 0:
         raise RuntimeError("trie engine build failed:\n" + log[-3000:])
